@@ -169,6 +169,43 @@ func c17Case(i int, work, src string) (key, detail string) {
 	return "", ""
 }
 
+// c17BuildConfigs: the link set of the library itself must contain crypto/sha256 in every build configuration, not
+// only the host's default one (a file guarded by a GOARCH or `purego` constraint could be the only importer).
+var (
+	c17Arches = []string{"amd64", "arm64", "386", "arm", "riscv64", "ppc64le", "s390x", "mips64", "wasm"}
+	c17Tags   = []string{"", "purego", "noasm", "appengine"}
+)
+
+// c17DepsCase asks the go tool for the dependency closure of the minimal program in one build configuration.
+func c17DepsCase(dir, goarch, tags string) (key, detail string) {
+	args := []string{"list", "-deps"}
+	if tags != "" {
+		args = append(args, "-tags", tags)
+	}
+
+	args = append(args, ".")
+	cmd := exec.Command("go", args...)
+	cmd.Dir = dir
+	cmd.Env = append(os.Environ(), "GOARCH="+goarch, "CGO_ENABLED=0")
+
+	if goarch == "wasm" {
+		cmd.Env = append(cmd.Env, "GOOS=js")
+	}
+
+	out, err := cmd.CombinedOutput()
+	if err != nil {
+		return "tool", fmt.Sprintf("go list -deps failed for GOARCH=%s tags=%q: %v\n%s", goarch, tags, err, out)
+	}
+
+	for _, l := range strings.Split(string(out), "\n") {
+		if strings.TrimSpace(l) == "crypto/sha256" {
+			return "", ""
+		}
+	}
+
+	return "library-does-not-link-SHA-256-in-some-build-configuration", fmt.Sprintf("GOARCH=%s tags=%q: crypto/sha256 is not in the dependency closure of a program that imports only the package", goarch, tags)
+}
+
 // C17 builds plain binaries with different link sets and runs the three hashing functions in each.
 func C17(r *ev.Report) {
 	work := os.Getenv("VERIF_WORK")
@@ -185,9 +222,44 @@ func C17(r *ev.Report) {
 		src = "/repo"
 	}
 
-	r.Rule("plain (non-test) binaries built in an external module that requires the package through a replace directive, one per configuration of the rest of the program: link sets {}, {crypto}, {crypto/sha512}, {crypto/md5, hash/crc32}, {crypto/sha256}, and programs that register their own SHA-256 (a wrapper exposing only the hash.Hash methods) with crypto.RegisterHash before resp. after the library's initialisation; each calls HashToGroup, EncodeToGroup, HashToScalar on two inputs and must exit 0 with the oracle's bytes; 3-class abstraction of 'all programs' (SHA-256 registered by nobody else / by the standard library / by the program itself), the minimal program being the worst case of the first class because registration is monotone in the link set; non-trivial = programs other than the one that imports crypto/sha256 itself")
+	r.Rule("plain (non-test) binaries built in an external module that requires the package through a replace directive, one per configuration of the rest of the program: link sets {}, {crypto}, {crypto/sha512}, {crypto/md5, hash/crc32}, {crypto/sha256}, and programs that register their own SHA-256 (a wrapper exposing only the hash.Hash methods) with crypto.RegisterHash before resp. after the library's initialisation; each calls HashToGroup, EncodeToGroup, HashToScalar on two inputs and must exit 0 with the oracle's bytes; additionally the dependency closure of the minimal program must contain crypto/sha256 in every build configuration of GOARCH {amd64, arm64, 386, arm, riscv64, ppc64le, s390x, mips64, wasm} x tags {none, purego, noasm, appengine}, and the minimal program is built and run with -tags purego; 3-class abstraction of 'all programs' (SHA-256 registered by nobody else / by the standard library / by the program itself), the minimal program being the worst case of the first class because registration is monotone in the link set; non-trivial = programs other than the one that imports crypto/sha256 itself")
 	r.Bound("programs", len(c17Programs))
 	r.Bound("calls_per_program", 3*len(c17Inputs))
+
+	// build configurations of the minimal program
+	cfgDir := filepath.Join(work, "c17-buildconfigs")
+	if err := os.MkdirAll(cfgDir, 0o755); err == nil {
+		defer os.RemoveAll(cfgDir)
+
+		gomod := fmt.Sprintf("module verifprog\n\ngo 1.22\n\nrequire github.com/bytemare/secp256k1 v0.0.0\n\nreplace github.com/bytemare/secp256k1 => %s\n", src)
+		_ = os.WriteFile(filepath.Join(cfgDir, "go.mod"), []byte(gomod), 0o644)
+		_ = os.WriteFile(filepath.Join(cfgDir, "main.go"), []byte(c17Source(nil, "")), 0o644)
+
+		for _, arch := range c17Arches {
+			for _, tags := range c17Tags {
+				r.Evals.Add(1)
+				r.Transitions.Add(1)
+				r.States.Add(1)
+				r.Distinct.Add(1)
+				r.Count("build_configurations", 1)
+
+				key, detail := c17DepsCase(cfgDir, arch, tags)
+				if key == "tool" {
+					r.Note("%s", detail)
+					continue
+				}
+
+				if key != "" {
+					r.Violation(key, detail, Case{"op": "buildconfig", "goarch": arch, "tags": tags})
+				}
+			}
+		}
+
+		// and the minimal program actually run with the pure-Go tag
+		if key, detail := c17TaggedRun(cfgDir, "purego"); key != "" && key != "tool" {
+			r.Violation(key, detail, Case{"op": "taggedrun", "tags": "purego"})
+		}
+	}
 
 	for i, p := range c17Programs {
 		r.Evals.Add(int64(3 * len(c17Inputs)))
@@ -212,6 +284,27 @@ func C17(r *ev.Report) {
 	}
 }
 
+// c17TaggedRun builds the minimal program with build tags and runs it.
+func c17TaggedRun(dir, tags string) (key, detail string) {
+	build := exec.Command("go", "build", "-tags", tags, "-o", "prog-"+tags, ".")
+	build.Dir = dir
+
+	if out, err := build.CombinedOutput(); err != nil {
+		return "tool", fmt.Sprintf("go build -tags %s failed: %v\n%s", tags, err, out)
+	}
+
+	out, err := exec.Command(filepath.Join(dir, "prog-"+tags)).CombinedOutput()
+	if err != nil {
+		return "hashing-fails-in-program/built-with-tags-" + tags, fmt.Sprintf("%v: %s", err, strings.SplitN(string(out), "\n", 2)[0])
+	}
+
+	if string(out) != c17Expected() {
+		return "hashing-gives-wrong-result-in-program/built-with-tags-" + tags, string(out)
+	}
+
+	return "", ""
+}
+
 func init() {
 	Parts["C17"] = Part{"C17", C17}
 	Replayers["C17"] = func(c Case) (bool, string) {
@@ -221,6 +314,28 @@ func init() {
 		src := os.Getenv("VERIF_SRC")
 		if src == "" {
 			src = "/repo"
+		}
+
+		if c["op"] == "buildconfig" || c["op"] == "taggedrun" {
+			dir, err := os.MkdirTemp("", "c17-replay-")
+			if err != nil {
+				return false, err.Error()
+			}
+
+			defer os.RemoveAll(dir)
+
+			gomod := fmt.Sprintf("module verifprog\n\ngo 1.22\n\nrequire github.com/bytemare/secp256k1 v0.0.0\n\nreplace github.com/bytemare/secp256k1 => %s\n", src)
+			_ = os.WriteFile(filepath.Join(dir, "go.mod"), []byte(gomod), 0o644)
+			_ = os.WriteFile(filepath.Join(dir, "main.go"), []byte(c17Source(nil, "")), 0o644)
+
+			var key, detail string
+			if c["op"] == "buildconfig" {
+				key, detail = c17DepsCase(dir, c["goarch"], c["tags"])
+			} else {
+				key, detail = c17TaggedRun(dir, c["tags"])
+			}
+
+			return key == "", key + " " + detail
 		}
 
 		key, detail := c17Case(i, os.TempDir(), src)
